@@ -48,8 +48,28 @@ def enc_ts(pairs):
     return '(L' + ''.join(' (T %s %s)' % (enc(date(i)), 'F:nan' if v is None else 'I:%d' % v) for i, v in pairs) + ')'
 
 
-def merge_line(k, pairs):
+def merge_line(k, pairs, names=None):
+    """names = (Series.name, index.name) of the version handed to Bi (None = the three-argument line: an anonymous Series)"""
+    if names is not None:
+        return '(bitemp merge %s %s %s %s)' % (enc(stamp(2 * k)), enc_ts(pairs), *('N' if n is None else enc(n) for n in names))
     return '(bitemp merge %s %s)' % (enc(stamp(2 * k)), enc_ts(pairs))
+
+
+# review t5: a Series that has a name (every column taken out of a DataFrame: df['px']) / an index that has a name.  The property
+# speaks of "versions of a series": a name changes nothing about the publication.  'updated' as an index name is kept out (it is the
+# name of the stamp column: bi_read raises "both an index level and a column label").
+SERIES_NAMES = [None, 'px', 'px', 'value', '_is_series', 0]
+INDEX_NAMES = [None, None, 'date', 'index']
+
+
+def gen_names(rng, p=0.35):
+    """per history: None (anonymous throughout, the old lines) or a function version number -> (series name, index name)"""
+    if rng.random() >= p:
+        return lambda j: None
+    name, iname = rng.choice(SERIES_NAMES[1:]), rng.choice(INDEX_NAMES)
+    flip = rng.random() < 0.4                      # some versions of a named history are anonymous (and the other way round)
+    picks = [(name, iname) if not (flip and rng.random() < 0.3) else (None, iname) for _ in range(12)]
+    return lambda j: picks[j % len(picks)]
 
 
 def mergelist_line(batch):
@@ -202,8 +222,9 @@ def history_case(rng, ndates, ordered, idem):
     kind = 'unordered' if not ordered else ('ties' if len(set(ks)) < len(ks) else 'distinct')
     lines = []
     T = read_times(hist)
+    names = gen_names(rng)
     for j, (k, pairs) in enumerate(hist):
-        lines.append(merge_line(k, pairs))
+        lines.append(merge_line(k, pairs, names(j)))
         last = j == len(hist) - 1
         sub = T if (last or ndates <= 5 and rng.random() < 0.3) else rng.sample(T, min(len(T), 2))
         for t in sub:
@@ -219,10 +240,12 @@ def history_case(rng, ndates, ordered, idem):
         if rng.random() < 0.5:
             lines.append(reads_line(rng.choice(T), rng.choice(['last', 'last', 'first'])))
     tag = 'h%d-%s' % (ndates, kind)
+    if names(0) is not None:
+        tag += '+named'
     if idem:
         # re-merge a version that is in the store: the one merged last (always claimed by the property)
         k, pairs = hist[-1]
-        lines.append(merge_line(k, pairs))
+        lines.append(merge_line(k, pairs, names(len(hist) - 1)))
         for t in T:
             lines.append(read_line(t, -1))
             lines.append(read_line(t, 0))
@@ -526,17 +549,17 @@ def enc_frame(r, w):
                           for i, t in enumerate(r.index)) + ')'
 
 
-def _version(state, pairs, line):
+def _version(state, pairs, line, names=None):
     """the object handed to Bi: a fresh Series, or - on every third history - a one-column DataFrame; a publisher that revises
     its data keeps ONE frame object, updates it in place and publishes the same object again (same index), which is how
     an aliasing slip in Bi (stamping the caller's frame) becomes visible"""
     import zlib
     if state['mode'] is None:
-        state['mode'] = 'frame' if zlib.crc32(line.encode()) % 3 == 0 else 'series'
+        state['mode'] = 'frame' if zlib.crc32(line.encode()) % 3 == 0 and names is None else 'series'
         state['ints'] = zlib.crc32(line.encode()) % 4 == 1
     # on every fourth history a version without NaN is an int64 series (review s5): the stored column starts as int64 and turns
     # float with the first NaN
-    s = _series(pairs, ints=state.get('ints', False))
+    s = _series(pairs, ints=state.get('ints', False), names=names)
     if state['mode'] == 'series':
         return s
     f = state['frame']
@@ -547,11 +570,12 @@ def _version(state, pairs, line):
     return state['frame']
 
 
-def _series(pairs, ints=False):
-    idx = pd.DatetimeIndex([t for t, _ in pairs])
+def _series(pairs, ints=False, names=None):
+    name, iname = names if names is not None else (None, None)
+    idx = pd.DatetimeIndex([t for t, _ in pairs], name=iname)
     if ints and pairs and all(v is not None and int(v) == v for _, v in pairs):
-        return pd.Series([int(v) for _, v in pairs], index=idx, dtype=np.int64)
-    return pd.Series([np.nan if v is None else float(v) for _, v in pairs], index=idx, dtype=float)
+        return pd.Series([int(v) for _, v in pairs], index=idx, dtype=np.int64, name=name)
+    return pd.Series([np.nan if v is None else float(v) for _, v in pairs], index=idx, dtype=float, name=name)
 
 
 def _dec_ts(sx):
@@ -594,7 +618,8 @@ def run_line(state, sx):
     op, args = sx[1], sx[2:]
     if op == 'merge':
         st = proto.dec(args[0])
-        state['store'] = bi_merge(state['store'], Bi(_version(state, _dec_ts(args[1]), proto.render(sx)), st))
+        names = tuple(None if a == 'N' else proto.dec(a) for a in args[2:4]) if len(args) == 4 else None
+        state['store'] = bi_merge(state['store'], Bi(_version(state, _dec_ts(args[1]), proto.render(sx), names), st))
         return 'ok ' + enc_store(state['store'])
     if op == 'mergelist':
         news = [Bi(_series(_dec_ts(item[2])), proto.dec(item[1])) for item in args[0][1:]]
@@ -746,6 +771,12 @@ def _read(store, t2, what, spelling=None):
             for t, v in zip(r.index, r.values)}, len(r)
 
 
+def _dump(df):
+    """everything a caller can see of a stored frame"""
+    return (('index name', df.index.name), ('columns', list(df.columns)), ('dtypes', [str(x) for x in df.dtypes]),
+            ('rows', [tuple(None if x != x else x for x in row) for row in df.itertuples()]))
+
+
 def _rows(store):
     """the rows of a store as (date index, stamp number, value | None)"""
     from pyg_base._bitemporal import _updated, _series as col
@@ -755,9 +786,9 @@ def _rows(store):
 
 
 def laws(rng, tier, ctx):
-    from pyg_base._bitemporal import bi_merge, Bi
+    from pyg_base._bitemporal import bi_merge, bi_read, Bi, _updated as BUPD, _series as BCOL
     count = 0
-    m = 10 if tier == 'quick' else 150
+    m = 9 if tier == 'quick' else 150
     for nd in (3, 5, 25):
         for _ in range(m):
             nver = rng.choice([2, 3, 4, 5, 6])
@@ -768,9 +799,20 @@ def laws(rng, tier, ctx):
             snaps = []
             bad = None
             first_bad = None
+            names = gen_names(rng)
             for j, (k, pairs) in enumerate(hist):
-                lines.append(merge_line(k, pairs))
-                store = bi_merge(store, Bi(_series([(date(i), v) for i, v in pairs]), stamp(2 * k)))
+                lines.append(merge_line(k, pairs, names(j)))
+                # Bi(ts, stamp) is the version that is merged: one row per row of ts, its values, the stamp (the model's `Bi` by definition;
+                # review t5: a Series that has a name came out with no row at all)
+                ver = _series([(date(i), v) for i, v in pairs], ints=(j % 2 == 1), names=names(j))
+                new = Bi(ver, stamp(2 * k))
+                count += 1
+                got_rows = [(pd.Timestamp(t), None if v != v else float(v)) for t, v in zip(new.index, new[BCOL].values)] if BCOL in new.columns else None
+                want_rows = [(pd.Timestamp(date(i)), None if v is None else float(v)) for i, v in pairs]
+                if (got_rows != want_rows or any(pd.Timestamp(u) != pd.Timestamp(stamp(2 * k)) for u in new[BUPD].values)) and bad is None:
+                    bad = ('law-bi-rows', lines + [read_line(None, -1), spec_line(None)],
+                           'Bi(series named %r, stamp) has the rows %s, the series has %s' % (ver.name, got_rows, want_rows))
+                store = bi_merge(store, new)
                 snaps.append(store)
                 for t in (T if j == len(hist) - 1 else rng.sample(T, 3)):
                     for what, first in ((-1, False), (0, True)):
@@ -846,10 +888,15 @@ def laws(rng, tier, ctx):
                 return all(i in vis and (v is None or vis[i] == v) for i, v in pairs)
             cands = [j for j, (k, pairs) in enumerate(hist) if pairs and (all((i, k, v) in rows for i, v in pairs) or visible(k, pairs))]
             if cands:
-                j = rng.choice(cands)
-                k, pairs = hist[j]
+                # one to three of them, in any order, the same one possibly twice (theorem merge_idem_many; the candidates stay candidates:
+                # the test is on reads, and the reads do not change)
+                js = [rng.choice(cands) for _ in range(rng.choice([1, 1, 2, 3]))]
+                j = js[0]
                 later = [(hist[-1][0] + k2, ps) for k2, ps in gen_history(rng, nd, rng.choice([1, 2, 3]), True)]
-                a, b = store, bi_merge(store, Bi(_series([(date(i), v) for i, v in pairs]), stamp(2 * k)))
+                a, b = store, store
+                for jj in js:
+                    k, pairs = hist[jj]
+                    b = bi_merge(b, Bi(_series([(date(i), v) for i, v in pairs], names=names(jj)), stamp(2 * k)))
                 for k2, ps in later:
                     new = lambda: Bi(_series([(date(i), v) for i, v in ps]), stamp(2 * k2))
                     a, b = bi_merge(a, new()), bi_merge(b, new())
@@ -858,13 +905,57 @@ def laws(rng, tier, ctx):
                         count += 1
                         ra, rb = _read(a, t, what)[0], _read(b, t, what)[0]
                         if ra != rb and bad is None:
-                            bad = ('law-remerge-future', lines + [merge_line(k, pairs)] + [merge_line(k2, ps) for k2, ps in later] + [read_line(t, what)],
-                                   're-merging version %d (its values are the ones visible as of its stamp) changed bi_read(asof=%s, what=%d) after %d further merges: %s -> %s'
-                                   % (j, t, what, len(later), ra, rb))
+                            bad = ('law-remerge-future', lines + [merge_line(*hist[jj], names(jj)) for jj in js] + [merge_line(k2, ps) for k2, ps in later] + [read_line(t, what)],
+                                   're-merging version(s) %s (their values are the ones visible as of their stamps) changed bi_read(asof=%s, what=%d) after %d further merges: %s -> %s'
+                                   % (js, t, what, len(later), ra, rb))
+            # a read is a read (review t5): bi_read leaves the store it is given as it was (values, stamps, dtypes, index name), and the
+            # same read twice is the same Series including the name of its index - on a store no read has touched yet
+            fresh = None
+            for j, (k, pairs) in enumerate(hist):
+                fresh = bi_merge(fresh, Bi(_series([(date(i), v) for i, v in pairs], names=names(j)), stamp(2 * k)))
+            for t in (None, T[-1]):
+                for what in (-1, 0):
+                    count += 1
+                    before = _dump(fresh)
+                    r1 = bi_read(fresh, None if t is None else stamp(t), what)
+                    after = _dump(fresh)
+                    r2 = bi_read(fresh, None if t is None else stamp(t), what)
+                    if before != after and bad is None:
+                        bad = ('law-read-pure', lines + [read_line(t, what)],
+                               'bi_read(store, asof=%s, what=%d) changed the store it was given: %s -> %s' % (
+                                   t, what, [a for a, b in zip(before, after) if a != b], [b for a, b in zip(before, after) if a != b]))
+                    if (r1.index.name, r1.name) != (r2.index.name, r2.name) and bad is None:
+                        bad = ('law-read-pure', lines + [read_line(t, what), read_line(t, what)],
+                               'the same bi_read(store, asof=%s, what=%d) twice: index name / name %r, then %r' % (
+                                   t, what, (r1.index.name, r1.name), (r2.index.name, r2.name)))
             if bad is not None:
                 yield Finding('violation', dict(tag=bad[0], lines=bad[1], atomic=True, ordered=True), bad[2])
             if first_bad is not None:
                 yield first_bad
+    # values that are not small integers (review t5): the model and the wire hold tokens 1..5; the code is vectorised and should not care
+    # what the floats are.  The statement (py_spec) on histories whose tokens stand for non-integer floats, huge / tiny numbers, infinities
+    # and the two zeros (0.0 == -0.0: a "repeat" in the sense of ==, either zero may be read - python's == on the dicts agrees)
+    PALETTE = [0.1 + 0.2, 0.3, 1e300, -1e300, float('inf'), float('-inf'), 5e-324, 2.0 ** 53, 2.0 ** 53 + 2, 0.5, 0.0, -0.0]
+    for nd in (3, 5, 25):
+        for _ in range(max(3, m // 3)):
+            hist = gen_history(rng, nd, rng.choice([2, 3, 4, 5, 6]), True, nonempty_start=True)
+            pal = dict(zip([1, 2, 3, 4, 5], rng.sample(PALETTE, 5)))
+            fhist = [(k, [(i, None if v is None else pal[v]) for i, v in pairs]) for k, pairs in hist]
+            store, bad = None, None
+            for k, pairs in fhist:
+                store = bi_merge(store, Bi(pd.Series([np.nan if v is None else v for _, v in pairs], index=pd.DatetimeIndex([date(i) for i, _ in pairs]), dtype=float),
+                                           stamp(2 * k)))
+            for t in read_times(hist):
+                for what, first in ((-1, False), (0, True)):
+                    count += 1
+                    r = bi_read(store, None if t is None else stamp(t), what)
+                    got = {int((pd.Timestamp(x).to_pydatetime() - D0) // DAY): (None if v != v else float(v)) for x, v in zip(r.index, r.values)}
+                    want = py_spec(fhist, t, first)
+                    if (got != want or len(r) != len(want)) and bad is None:
+                        bad = 'bi_read(asof=%s, what=%d) = %s but the publication log gives %s (values %s stand for the tokens of the lines)' % (t, what, got, want, pal)
+                        badlines = [merge_line(k, pairs) for k, pairs in hist] + [read_line(t, what)]
+            if bad is not None:
+                yield Finding('violation', dict(tag='law-read-spec-floats', lines=badlines, atomic=True, ordered=True), bad)
     # frames, column by column (theorem frame_read_last_columns): when per date every version carries a new stamp, what='last'
     # is in every column the fold of that column's publications
     from pyg_base._bitemporal import bi_read
